@@ -9,7 +9,7 @@ does not panic; here: what it shows). -/
 namespace VaxisModel.Lemmas.WrapDraw
 open VaxisModel.Model.Window (Cell)
 open VaxisModel.Model.Surface VaxisModel.Model.Layout VaxisModel.Lemmas.Surface
-open VaxisModel.Spec.WrapDraw (over width)
+open VaxisModel.Spec.WrapDraw (over overHard width)
 
 /-- The cell shown at column `x`, row `y` (`none` outside the surface). -/
 def cellAt (s : Surface) (x y : Nat) : Option Cell :=
@@ -371,6 +371,220 @@ theorem drawText_cells (m : TextMode) (hm : m.hard = false) (hs : m.sizeStrict =
     rw [if_pos cnd]
     simp only [UInt16.toNat_zero, Nat.sub_zero]
     exact over_congr _ _ _ _ _ (hc0 x y hx hy)
+
+/-! ### the hard-wrap branch (ellipsis) -/
+
+theorem overHard_congr (maxW : Nat) (est : Option Nat) : ∀ (line : List Cell) (col : Nat)
+    (f g : Nat → Option Cell) (x : Nat), f x = g x → overHard maxW est line col f x = overHard maxW est line col g x := by
+  intro line
+  induction line with
+  | nil => intro col f g x h; exact h
+  | cons c cs ih =>
+    intro col f g x h
+    simp only [overHard]
+    split
+    · exact h
+    · split
+      · simp only [h]
+      · apply ih; simp only [h]
+
+theorem drawLine_cellAt_hard (m : TextMode) (hm : m.hard = true) (maxW row : UInt16) :
+    ∀ (line : List Cell) (col : UInt16) (s : Surface), Sized s →
+    (∀ c ∈ line, 0 ≤ c.w) → col.toNat + width line < 65536 →
+    ∃ s', drawLine exact m maxW row line col s = .ok s' ∧ s'.w = s.w ∧ s'.h = s.h ∧ Sized s' ∧
+      ∀ x y, x < s.w.toNat → y < s.h.toNat → cellAt s' x y =
+        if y = row.toNat then overHard maxW.toNat m.ellipsisStyle line col.toNat (fun x => cellAt s x y) x
+        else cellAt s x y := by
+  intro line
+  induction line with
+  | nil =>
+    intro col s hs _ _
+    refine ⟨s, rfl, rfl, rfl, hs, ?_⟩
+    intro x y _ _
+    simp [overHard]
+  | cons ch rest ih =>
+    intro col s hs hpos hsum
+    simp only [drawLine, hm, Bool.true_and]
+    have hw0 : 0 ≤ ch.w := hpos ch (by simp)
+    simp only [width, List.map_cons, List.sum_cons] at hsum
+    have hcn : (col + u16 ch.w).toNat = col.toNat + ch.w.toNat := u16_toNat col ch.w hw0 (by omega)
+    by_cases hcol : col ≥ maxW
+    · simp only [hcol, ↓reduceIte]
+      refine ⟨s, rfl, rfl, rfl, hs, ?_⟩
+      intro x y _ _
+      have hcol' := UInt16.le_iff_toNat_le.1 hcol
+      simp only [overHard, ge_iff_le, hcol', ↓reduceIte, ite_self]
+    · simp only [hcol, ↓reduceIte]
+      have hcol' : ¬ col.toNat ≥ maxW.toNat := by
+        have := UInt16.not_le.1 hcol; have := UInt16.lt_iff_toNat_lt.1 this; omega
+      by_cases hell : col + u16 ch.w ≥ maxW
+      · have hell' : col.toNat + ch.w.toNat ≥ maxW.toNat := by
+          have := UInt16.le_iff_toNat_le.1 hell; rw [hcn] at this; exact this
+        simp only [hell, decide_true, ↓reduceIte]
+        obtain ⟨s1, h1, hw1, hh1, hs1, hc1⟩ := writeCell_cellAt s hs col row
+          { g := VaxisModel.Model.Window.gEllipsis, w := 1, st := m.ellipsisStyle.getD ch.st }
+        refine ⟨s1, h1, hw1, hh1, hs1, ?_⟩
+        intro x y hx hy
+        rw [hc1 x y]
+        simp only [overHard, hcol', hell', ↓reduceIte]
+        by_cases hy0 : y = row.toNat
+        · simp only [hy0, true_and, ↓reduceIte]
+          by_cases hxc : x = col.toNat
+          · simp [hxc, hy0 ▸ hy, show col.toNat < s.w.toNat from hxc ▸ hx]
+          · simp [hxc]
+        · simp [hy0]
+      · have hell' : ¬ col.toNat + ch.w.toNat ≥ maxW.toNat := by
+          have := UInt16.not_le.1 hell; have := UInt16.lt_iff_toNat_lt.1 this; rw [hcn] at this; omega
+        simp only [hell, decide_false, Bool.false_eq_true, ↓reduceIte]
+        obtain ⟨s1, h1, hw1, hh1, hs1, hc1⟩ := writeCell_cellAt s hs col row ch
+        simp only [h1]
+        obtain ⟨s2, h2, hw2, hh2, hs2, hc2⟩ := ih (col + u16 ch.w) s1 hs1 (fun c hc => hpos c (by simp [hc]))
+          (by rw [hcn]; simp only [width]; omega)
+        refine ⟨s2, h2, hw2.trans hw1, hh2.trans hh1, hs2, ?_⟩
+        intro x y hx hy
+        rw [hc2 x y (by rw [hw1]; exact hx) (by rw [hh1]; exact hy), hcn]
+        by_cases hy0 : y = row.toNat
+        · rw [if_pos hy0, if_pos hy0]
+          simp only [overHard, hcol', hell', ↓reduceIte]
+          apply overHard_congr
+          rw [hc1 x y]
+          by_cases hxc : x = col.toNat
+          · simp [hxc, hy0, hy0 ▸ hy, show col.toNat < s.w.toNat from hxc ▸ hx]
+          · simp [hxc]
+        · rw [if_neg hy0, if_neg hy0, hc1 x y]
+          have : ¬ (x = col.toNat ∧ y = row.toNat ∧ x < s.w.toNat ∧ y < s.h.toNat) := fun hh => hy0 hh.2.1
+          rw [if_neg this]
+
+theorem drawLines_cellAt_hard (m : TextMode) (hm : m.hard = true) (hd : m.drawStrict = true) (maxW maxH : UInt16) :
+    ∀ (lines : List (List Cell)) (row : UInt16) (s : Surface), Sized s →
+    (∀ l ∈ lines, (∀ c ∈ l, 0 ≤ c.w) ∧ width l < 65536) →
+    ∃ s', drawLines exact m maxW maxH lines row s = .ok s' ∧ s'.w = s.w ∧ s'.h = s.h ∧ Sized s' ∧
+      ∀ x y, x < s.w.toNat → y < s.h.toNat → cellAt s' x y =
+        if row.toNat ≤ y ∧ y < row.toNat + lines.length ∧ y < maxH.toNat
+        then overHard maxW.toNat m.ellipsisStyle (lines.getD (y - row.toNat) []) 0 (fun x => cellAt s x y) x
+        else cellAt s x y := by
+  intro lines
+  induction lines with
+  | nil =>
+    intro row s hs _
+    refine ⟨s, rfl, rfl, rfl, hs, ?_⟩
+    intro x y _ _
+    have : ¬ (row.toNat ≤ y ∧ y < row.toNat + ([] : List (List Cell)).length ∧ y < maxH.toNat) := by
+      simp only [List.length_nil]; omega
+    rw [if_neg this]
+  | cons l ls ih =>
+    intro row s hs hall
+    simp only [drawLines, hGuard, hd, ↓reduceIte]
+    by_cases hrow : row ≥ maxH
+    · simp only [hrow, decide_true, ↓reduceIte]
+      refine ⟨s, rfl, rfl, rfl, hs, ?_⟩
+      intro x y _ _
+      have hrow' := UInt16.le_iff_toNat_le.1 hrow
+      have : ¬ (row.toNat ≤ y ∧ y < row.toNat + (l :: ls).length ∧ y < maxH.toNat) := by omega
+      rw [if_neg this]
+    · simp only [hrow, decide_false, Bool.false_eq_true, ↓reduceIte]
+      have hrow' : row.toNat < maxH.toNat := by
+        have := UInt16.not_le.1 hrow; exact UInt16.lt_iff_toNat_lt.1 this
+      have hm16 := UInt16.toNat_lt maxH
+      have hl := hall l (by simp)
+      obtain ⟨s1, h1, hw1, hh1, hs1, hc1⟩ := drawLine_cellAt_hard m hm maxW row l 0 s hs hl.1 (by simpa using hl.2)
+      simp only [h1]
+      have hr1 : (row + 1).toNat = row.toNat + 1 := by
+        rw [UInt16.toNat_add, UInt16.toNat_one]; omega
+      obtain ⟨s2, h2, hw2, hh2, hs2, hc2⟩ := ih (row + 1) s1 hs1 (fun l' hl' => hall l' (by simp [hl']))
+      refine ⟨s2, h2, hw2.trans hw1, hh2.trans hh1, hs2, ?_⟩
+      intro x y hx hy
+      rw [hc2 x y (by rw [hw1]; exact hx) (by rw [hh1]; exact hy), hr1]
+      simp only [List.length_cons]
+      by_cases hy0 : y = row.toNat
+      · have c1 : ¬ (row.toNat + 1 ≤ y ∧ y < row.toNat + 1 + ls.length ∧ y < maxH.toNat) := by omega
+        have c2 : row.toNat ≤ y ∧ y < row.toNat + (ls.length + 1) ∧ y < maxH.toNat := by omega
+        rw [if_neg c1, hc1 x y hx hy, if_pos c2, if_pos hy0]
+        have : y - row.toNat = 0 := by omega
+        simp [this]
+      · have hs1y : ∀ x', x' < s.w.toNat → cellAt s1 x' y = cellAt s x' y := by
+          intro x' hx'
+          rw [hc1 x' y hx' hy, if_neg hy0]
+        by_cases c1 : row.toNat + 1 ≤ y ∧ y < row.toNat + 1 + ls.length ∧ y < maxH.toNat
+        · have c2 : row.toNat ≤ y ∧ y < row.toNat + (ls.length + 1) ∧ y < maxH.toNat := by omega
+          rw [if_pos c1, if_pos c2]
+          have : y - row.toNat = (y - (row.toNat + 1)) + 1 := by omega
+          rw [this, List.getD_cons_succ]
+          exact overHard_congr _ _ _ _ _ _ _ (hs1y x hx)
+        · have c2 : ¬ (row.toNat ≤ y ∧ y < row.toNat + (ls.length + 1) ∧ y < maxH.toNat) := by omega
+          rw [if_neg c1, if_neg c2]
+          exact hs1y x hx
+
+/-- A line narrower than `Max.Width` is drawn without ellipsis, exactly as in the soft-wrap mode. -/
+theorem overHard_fits (maxW : Nat) (est : Option Nat) : ∀ (line : List Cell) (col : Nat) (f : Nat → Option Cell),
+    col + width line < maxW → overHard maxW est line col f = over line col f := by
+  intro line
+  induction line with
+  | nil => intro col f _; rfl
+  | cons c cs ih =>
+    intro col f h
+    simp only [width, List.map_cons, List.sum_cons] at h
+    have h1 : ¬ col ≥ maxW := by omega
+    have h2 : ¬ col + c.w.toNat ≥ maxW := by omega
+    simp only [overHard, over, h1, h2, ↓reduceIte]
+    exact ih _ _ (by simp only [width]; omega)
+
+/-- `drawText` in the hard-wrap mode, cell by cell. -/
+theorem drawText_cells_hard (m : TextMode) (hm : m.hard = true) (hs : m.sizeStrict = true) (hd : m.drawStrict = true)
+    (c : Ctx) (lines : List (List Cell)) (hall : ∀ l ∈ lines, (∀ c ∈ l, 0 ≤ c.w) ∧ width l < 65536) :
+    ∃ s, drawText exact m c lines = .ok s ∧
+      s.w = widthFold c.maxW (lines.take c.maxH.toNat) 0 ∧
+      s.h.toNat = min lines.length c.maxH.toNat ∧
+      s.buf.length = s.h.toNat * s.w.toNat ∧
+      ∀ x y, x < s.w.toNat → y < s.h.toNat →
+        cellAt s x y = overHard c.maxW.toNat m.ellipsisStyle (lines.getD y []) 0 (fun _ => some (blank m.fill)) x := by
+  have hsize1 := sizeLoop_width c.maxW c.maxH lines 0 0 (by rw [UInt16.le_iff_toNat_le]; simp)
+  have hsize2 := sizeLoop_height c.maxW c.maxH lines 0 0 (by rw [UInt16.le_iff_toNat_le]; simp)
+  have hle := sizeLoop_le c.maxW c.maxH lines 0 0 (by rw [UInt16.le_iff_toNat_le]; simp) (by rw [UInt16.le_iff_toNat_le]; simp)
+  simp only [UInt16.toNat_zero, Nat.zero_add, Nat.sub_zero] at hsize1 hsize2
+  simp only [drawText, findContainerSize, hs]
+  generalize hW : (sizeLoop true c.maxW c.maxH lines 0 0).1 = W at hsize1 hle
+  generalize hH : (sizeLoop true c.maxW c.maxH lines 0 0).2 = H at hsize2 hle
+  have h0 := newSurface_sized W H
+  have d0 := newSurface_dims exact W H
+  -- the start surface, cell by cell
+  have hstart : ∀ (s0 : Surface), s0 = (match m.fill with | some st => fillStyle (newSurface exact W H) st | none => newSurface exact W H) →
+      Sized s0 ∧ s0.w = W ∧ s0.h = H ∧ ∀ x y, x < W.toNat → y < H.toNat → cellAt s0 x y = some (blank m.fill) := by
+    intro s0 he
+    have hidx : ∀ x y, x < W.toNat → y < H.toNat → y * W.toNat + x < H.toNat * W.toNat :=
+      fun x y hx hy => index_lt _ _ _ _ hx hy
+    cases hf : m.fill with
+    | none =>
+      rw [hf] at he; simp only at he; subst he
+      refine ⟨h0, d0.1, d0.2.1, ?_⟩
+      intro x y hx hy
+      simp only [cellAt, d0.1, d0.2.1, hx, hy, and_self, ↓reduceIte, blank]
+      simp only [newSurface, Surface.buf, bufLen, exact, ↓reduceIte, List.getElem?_replicate, hidx x y hx hy]
+    | some st =>
+      rw [hf] at he; simp only at he; subst he
+      have f := fillStyle_props (newSurface exact W H) st h0
+      refine ⟨f.2.2.2, f.1.trans d0.1, f.2.1.trans d0.2.1, ?_⟩
+      intro x y hx hy
+      simp only [cellAt, f.1, f.2.1, d0.1, d0.2.1, hx, hy, and_self, ↓reduceIte, blank]
+      have d := setBuf_dims (newSurface exact W H) ((newSurface exact W H).buf.map fun c => { c with st := st })
+      simp only [fillStyle, d.2.2.2, List.getElem?_map]
+      simp only [newSurface, Surface.buf, bufLen, exact, ↓reduceIte, List.getElem?_replicate, hidx x y hx hy,
+        Option.map_some]
+  obtain ⟨hs0, hw0, hh0, hc0⟩ := hstart _ rfl
+  obtain ⟨s', h', hw', hh', hs', hc'⟩ := drawLines_cellAt_hard m hm hd c.maxW c.maxH lines 0 _ hs0 hall
+  refine ⟨s', h', by rw [hw', hw0, hsize1], by rw [hh', hh0, hsize2], ?_, ?_⟩
+  · rw [hs']
+  · intro x y hx hy
+    rw [hw', hw0] at hx
+    rw [hh', hh0] at hy
+    rw [hc' x y (by rw [hw0]; exact hx) (by rw [hh0]; exact hy)]
+    have hWle := UInt16.le_iff_toNat_le.1 hle.1
+    have cnd : (0 : UInt16).toNat ≤ y ∧ y < (0 : UInt16).toNat + lines.length ∧ y < c.maxH.toNat := by
+      simp only [UInt16.toNat_zero]; omega
+    rw [if_pos cnd]
+    simp only [UInt16.toNat_zero, Nat.sub_zero]
+    exact overHard_congr _ _ _ _ _ _ _ (hc0 x y hx hy)
+
 
 /-! ### what `over` shows -/
 
